@@ -18,7 +18,9 @@ Definition srest_or_nil (off : nat) : spec := fun l =>
 (* IPv6, RFC 8200 section 3 *)
 Definition IP6_specs : stable :=
   [sp "Dst" (scopy 24 16); sp "FlowLabel" (sfield 12 20); sp "HeaderLen" (sconst (VN 40));
-   sp "HopLimit" (sfield 56 8); sp "NextHeader" (sfield 48 8); sp "Payload" (srest 40);
+   sp "HopLimit" (sfield 56 8); sp "NextHeader" (sfield 48 8);
+   (* the payload is the Payload Length octets after the 40-byte header (trailing bytes are not part of it) *)
+   sp "Payload" (fun l => VR 40 (N.to_nat (bits l 32 16)));
    sp "PayloadLen" (sfield 32 16); sp "Src" (scopy 8 16); sp "String" sreturns;
    sp "TrafficClass" (sfield 4 8); sp "Version" (sfield 0 4)].
 
